@@ -17,7 +17,7 @@ from checks.c15 import fork_bool, fork_choice
 from checks.common import TemplateObligation
 from lx.check import Verdict
 from lx.engine import SymStr, eng, f_not, sym_value
-from lx.lifted import LiftedScript, norm_anon
+from lx.lifted import TWIN, LiftedScript, norm_anon
 from lx.order import symbolic_order
 from lx.tree import Names
 
@@ -35,6 +35,15 @@ ASSUMPTIONS = ["dicts and networkx views are insertion-ordered: their order is a
 
 
 def full_dump(lr):
+    d = _full_dump(lr)
+    if TWIN["on"] and TWIN["armed"] and not TWIN["n"]:
+        # sensitivity twin: the first observation of the path loses the first element of every non-empty component
+        TWIN["n"] += 1
+        d = {k: v[1:] for k, v in d.items()}
+    return d
+
+
+def _full_dump(lr):
     return {
         "sources": [str(t) for t in lr.source_tables],
         "targets": [str(t) for t in lr.target_tables],
@@ -226,6 +235,14 @@ ACCESSORS = ["source_tables", "target_tables", "intermediate_tables", "get_colum
 
 
 def call(lr, name):
+    r = _call(lr, name)
+    if TWIN["on"] and TWIN["armed"] and not TWIN["n"]:
+        TWIN["n"] += 1
+        r = (r + 1) if isinstance(r, int) else (r + " ") if isinstance(r, str) else (r[1:] if r else [("<lx-phantom>",)])
+    return r
+
+
+def _call(lr, name):
     if name in ("source_tables", "target_tables", "intermediate_tables"):
         return [str(t) for t in getattr(lr, name)]
     if name == "get_column_lineage":
